@@ -9,7 +9,10 @@ use std::io::{Error, Read, Write};
 use std::net::SocketAddr;
 use std::time::Duration;
 
+#[cfg(not(humphrey_verif))]
 use std::net::TcpStream;
+#[cfg(humphrey_verif)]
+use crate::verif::net::TcpStream;
 
 /// Represents a connection to a remote client or server.
 ///
